@@ -149,7 +149,10 @@ run_seq(const Plan& p, sim::Result& res)
       else if (op.kind == "cache")
         {
           st.cache = op.arg(0) % 2 != 0;
-          H.set_use_cache(st.cache);
+          if (op.arg(1) % 2)
+            H.set_use_cache(st.cache);
+          else
+            H.set_cache_enabled(st.cache); // the other public switch: flips the flag without touching the caches
           dirty = true; // the property speaks of changes "followed by set-up"
           sim::probe("cache_switched");
         }
